@@ -9,3 +9,4 @@ open SSVerif.Search
 #print axioms C01_search_checkers_sound
 #print axioms C01_build_lexTreeOK
 #print axioms C01_reachable_WFHist_built
+#print axioms C01_build_chains_end
